@@ -111,6 +111,10 @@ Proof.
   - unfold size_hint. cbn [snd]. split; assumption.
   - split; [reflexivity|lia].
   - split; assumption.
+  - destruct (Nat.ltb_spec (it_next it + k) (d_len d)); cbn [snd it_d it_next]; split; try reflexivity; lia.
+  - split; [reflexivity|lia].
+  - split; [reflexivity|lia].
+  - split; [reflexivity|lia].
 Qed.
 
 (* next on an in-invariant iterator: yields exactly position `it_next` while below len *)
